@@ -229,12 +229,21 @@ package nutsdb
 //@   ensures fsMut == old(fsMut) + 1
 //@   modifies fsMut
 //@ func DB.buildBucketMetaIdx
-//@   assumed sparse mode: loads the bucket key ranges from meta/bucket/*.meta
+//@   requires db != nil && (db.opt.EntryIdxMode == HintBPTSparseIdxMode ==> db.bucketMetas != nil)
+//@   ensures[C02] forall b string :: has(db.bucketMetas, b) ==> old(has(db.bucketMetas, b)) && db.bucketMetas[b] == old(db.bucketMetas[b]) || db.bucketMetas[b] != nil
+//@   ensures db.opt.EntryIdxMode != HintBPTSparseIdxMode ==> unchanged(db.bucketMetas)
 //@   modifies entries(db.bucketMetas)
+//@   safety[C20] panics
+//@   loops 1
+//@   loop 1: modifies entries(db.bucketMetas)
+//@   loop 1: invariant -1 <= rangeindex && rangeindex < len(files) && db == old(db) && db.bucketMetas == old(db.bucketMetas) && db.bucketMetas != nil &&
+//@        (forall k int :: 0 <= k && k < len(files) ==> !isnil(files[k])) &&
+//@        (forall b string :: has(db.bucketMetas, b) ==> old(has(db.bucketMetas, b)) && db.bucketMetas[b] == old(db.bucketMetas[b]) || db.bucketMetas[b] != nil)
 //@ func DB.buildIndexes
 //@   requires applicable(db) && nodesOK(nil) && treesOK(db)
 //@   ensures[C20] nodesOK(nil)
 //@   requires db != nil && db.BPTreeKeyEntryPosMap != nil && db.ActiveCommittedTxIdsIdx != nil && db.BPTreeIdx != nil && db.ActiveBPTreeIdx != nil
+//@   requires db.bucketMetas != nil
 //@   ensures fsMut >= old(fsMut)
 //@   modifies everything
 //@   safety[C20] panics
